@@ -44,6 +44,8 @@ func runC01(c *RunCtx) {
 	tuneRacePrograms(c, 24, 120)
 	batchPrograms(c, 48, 240)
 	bindStormPrograms(c, 16, 80)
+	livePurgePrograms(c, 8, 32)
+	closeRacePrograms(c, 12, 60)
 	runC01Burst(c)
 }
 
@@ -81,9 +83,18 @@ func runC09(c *RunCtx) {
 	runC09Extra(c)
 }
 
-func runC09Extra(c *RunCtx) { notifyPrograms(c, 40, 200) }
+func runC09Extra(c *RunCtx) {
+	notifyPrograms(c, 40, 200)
+	toggleBurstPrograms(c, 6, 30)
+	// pending jobs keep their queue order across pause / stop windows (all queue kinds, equal and mixed priorities)
+	gatePrograms(c, "gate", 32, 160, gateBias{Adapters: true, MaxOps: 16, Expiry: 0, Tune: false, Life: true}, gateOpts(c))
+}
 
-func runC10Extra(c *RunCtx) { purgeBurstPrograms(c, 16, 64) }
+func runC10Extra(c *RunCtx) {
+	purgeBurstPrograms(c, 16, 64)
+	livePurgePrograms(c, 16, 64)
+	closeRacePrograms(c, 24, 120)
+}
 
 func runC10(c *RunCtx) {
 	richPrograms(c, "rich", 96, 400, richBias{MaxJobs: 8, Cancel: 60, Purge: 40, Script: 2, Batches: 20, Waiters: 1, Expiry: 10},
@@ -94,11 +105,16 @@ func runC10(c *RunCtx) {
 func runC16(c *RunCtx) {
 	richPrograms(c, "rich", 96, 400, richBias{MaxJobs: 6, Cancel: 25, Purge: 10, Script: 2, Batches: 0, Waiters: 3, Samplers: true, Expiry: 10},
 		ExploreOpts{Base: 3, Noise: c.Q(20, 100), K: c.Q(2, 4), Funcs: anchoredOr(c, dispatchFuncs), Pairs: c.Q(20, 120), MaxCases: c.Q(200, 4000)})
+	// batch items have no handle of their own: their status is read through the job value the worker function received
+	batchPrograms(c, 48, 240)
 }
 
 func runC17(c *RunCtx) {
 	richPrograms(c, "rich", 48, 240, richBias{MaxJobs: 8, Cancel: 20, Purge: 20, Script: 3, Batches: 30, Waiters: 0, Samplers: true, Outcomes: true, Expiry: 20},
 		ExploreOpts{Base: 3, K: c.Q(2, 4), Funcs: anchoredOr(c, append([]string{"Len", "Manager"}, dispatchFuncs...)), Pairs: c.Q(20, 120), MaxCases: c.Q(200, 4000)})
+	// cancel-heavy: a Close racing the dispatch of the same job must not cost a slot
+	richPrograms(c, "rich-cancel", 32, 160, richBias{MaxJobs: 8, Cancel: 60, Purge: 10, Script: 2, Batches: 10, Waiters: 0, Samplers: true, Expiry: 10},
+		ExploreOpts{Base: 3, Noise: c.Q(20, 100), K: c.Q(3, 5), Funcs: anchoredOr(c, []string{"processNextJob", "job.Close", "Close", "markClosed", "changeStatus", "IsClosed"}), Pairs: c.Q(20, 120), MaxCases: c.Q(200, 4000)})
 	richPrograms(c, "restarts", 32, 160, richBias{MaxJobs: 8, Cancel: 0, Purge: 0, Script: 8, Batches: 0, Waiters: 0, Samplers: true, Expiry: 0, Conc: []int{1, 1, 2, 3}, RestartHeavy: true},
 		ExploreOpts{Base: 3, K: c.Q(3, 6), Funcs: anchoredOr(c, []string{"goEventLoop", "processNextJob", "Restart", "Stop", "start", "closeChannels"}), Pairs: c.Q(30, 150), MaxCases: c.Q(200, 3000)})
 	gatePrograms(c, "gate", 32, 160, gateBias{Adapters: true, MaxOps: 12, Expiry: 10, Tune: true, Life: true}, gateOpts(c))
